@@ -73,6 +73,23 @@ Theorem C08_halving_partial : ~ total Halving.
 Proof. exact halving_not_total. Qed.
 Print Assumptions C08_halving_partial.
 
+(* a nested use_first is first-success over its leaves in order: splicing changes nothing *)
+Theorem C08_usefirst_nested : forall h f t, suggest h f t = suggest (UseFirst (leaves h)) f t.
+Proof. exact suggest_leaves. Qed.
+Print Assumptions C08_usefirst_nested.
+
+Theorem C08_find_sequence_flatten : forall h fuel ts,
+  find_sequence h fuel ts = find_sequence (UseFirst (leaves h)) fuel ts.
+Proof. exact find_sequence_flatten. Qed.
+Print Assumptions C08_find_sequence_flatten.
+
+Example C08_ex_nested :
+  leaves (UseFirst [UseFirst [Halving]; UseFirst []; UseFirst [UseFirst [DeltaLargest]; Approximation]])
+    = [Halving; DeltaLargest; Approximation]
+  /\ find_sequence_alg (SAHeuristic [UseFirst [UseFirst [Halving]; DeltaLargest]]) [3] = Ok [1; 2; 3]
+  /\ is_total (UseFirst [UseFirst [Halving]; DeltaLargest]) = true.
+Proof. vm_compute. repeat split. Qed.
+
 (* the Bos-Coster loop for any heuristic meeting the contract, any fuel: Ok means a chain with every
    target; the error means the heuristic is not total; out of fuel only below the largest target *)
 Theorem C08_find_sequence_ok : forall h, good_suggest h -> forall ts, (forall t, In t ts -> 0 < t) ->
